@@ -137,6 +137,7 @@ func TestC09(t *testing.T) {
 		"sequence automaton (first 0, then +1 mod 256; a step of 1..1+r only across r refused writes). A second dialect that gives ids 0 and 66 other definitions is used side by side (stream writers and nodes, raw and decoded, either dialect first). Initialization refusals enumerated. distinct = (configuration, api) links")
 	rep.RuleAdd("Also: frames forwarded through the node between the originated ones, a third of them carrying the node's own system and component id and arbitrary sequence numbers; link generations; twin dialects. Every other node uses a dialect whose version is 0.")
 	rep.RuleAdd("Rounds 12-15: forwarded frames between the originated ones, nodes on dialect version 0, five lives of one node value, writers initialised again on their link, transports that deliver a frame and then report a network error.")
+	rep.RuleAdd("Rounds 16-17: v1 output of a struct that declares an extension before a regular field.")
 	rep.Assume("a sequence number consumed by a refused write is tolerated (the statement speaks of accepted writes); counted in seq_numbers_consumed_by_refused_writes")
 	seed := vh.Seed()
 	r := vh.Sub(seed, "c09")
